@@ -52,6 +52,11 @@ let rec erase_lam_ann (t : term) : term =
   | TNeg x -> TNeg (r x) | TBin (o, x, y) -> TBin (o, r x, r y) | TIf (c, x, y) -> TIf (r c, r x, r y)
 
 let check (case : Sexp.t) (res : Sexp.t) : [ `Ok | `Mismatch of string | `Property of string ] * bool =
+  let closed_case = (match case with
+      | L [ A "unifypair"; _; a; b ] -> (try is_closed (term_of_sexp a) && is_closed (term_of_sexp b) with _ -> false)
+      | L [ A "whnf"; _; a ] -> (try is_closed (term_of_sexp a) with _ -> false)
+      | _ -> true) in
+  if not closed_case then (`Ok, false) else
   match case, res with
   | _, L [ A "panic"; m ] -> (`Property ("panic " ^ atom m), true)
   | L [ A "c06"; _ ], L [ A "rejected" ] -> (`Ok, false)
